@@ -45,3 +45,7 @@ for _g in _reg_C10.GROUPS:
     if _g['name'] == 'ms_routing_c3s2p1n2':
         _h = _copy.deepcopy(_g); _h.pop('prop', None); _h['focus'] = ['16-bit output']; _h['what'] = 'multistream decoder 16-bit output = float output scaled, rounded and saturated, per mapped stream'
         GROUPS.append(_h)
+
+GROUPS.append(dict(name='downmix_views', cls='B', tu='C13_enc_wrappers.c', entry='h_downmix_views', dfcc=False, canary='real', expect_canaries=1, unwind=8, timeout=900, defines=['-U__SSE__', '-DVERIF_DM_N=1', '-DVERIF_DM_C=2'],
+    functions=['downmix_int', 'downmix_int24', 'downmix_float'], bounds='1 sample x 2 channels (offset 0..1), every sample, c1 and c2 (channel / -1 / -2) symbolic',
+    what='the three analysis down-mix functions give bit-identical output on matched 16-bit / 24-bit / float input for every channel selection'))
